@@ -69,7 +69,7 @@ func init() {
 	suites["db"] = func() suite {
 		return &dbSuite{profile: dbProfile}
 	}
-	for _, p := range []string{"kv", "structs", "mixed", "merge", "iso", "list", "set", "zset", "crash", "mcrash"} {
+	for _, p := range []string{"kv", "structs", "mixed", "merge", "iso", "list", "set", "zset", "crash", "mcrash", "backup", "mergekv"} {
 		p := p
 		suites["db-"+p] = func() suite { return &dbSuite{profile: p} }
 	}
@@ -424,7 +424,7 @@ func (s *dbSuite) exec(line string) string {
 	I := func(i int) int { return atoi(f[i]) }
 	U := func(i int) uint64 { n, _ := strconv.ParseUint(f[i], 10, 64); return n }
 	tx := s.tx
-	if tx == nil && f[0] != "open" && f[0] != "begin" && f[0] != "close" && f[0] != "merge" && f[0] != "obs" && f[0] != "files" && f[0] != "capture" && f[0] != "image" {
+	if tx == nil && f[0] != "open" && f[0] != "begin" && f[0] != "close" && f[0] != "merge" && f[0] != "obs" && f[0] != "files" && f[0] != "capture" && f[0] != "image" && f[0] != "concmerge" {
 		// calls without a transaction are made on a finished one
 		tx = s.deadTx()
 	}
@@ -529,6 +529,8 @@ func (s *dbSuite) exec(line string) string {
 		return s.observe()
 	case "files":
 		return "ok " + s.listFiles()
+	case "concmerge":
+		return "ok"
 	case "capture":
 		s.armed = true
 		s.images = nil
@@ -786,6 +788,14 @@ func (s *dbSuite) genTTL(r *rand.Rand) (ttl uint32, ts uint64) {
 }
 
 func (s *dbSuite) genValue(r *rand.Rand) []byte {
+	if s.profile == "backup" && r.Intn(6) == 0 {
+		// long runs of zero bytes (a sparse-looking value), with and without data after them
+		v := make([]byte, 9000+r.Intn(3000))
+		if r.Intn(2) == 0 {
+			v[len(v)-1] = 7
+		}
+		return v
+	}
 	switch r.Intn(12) {
 	case 0:
 		return []byte{}
@@ -889,7 +899,12 @@ func (s *dbSuite) genOp(r *rand.Rand, dead bool) string {
 	hb := hx([]byte(b))
 	now := s.now()
 	kind := s.profile
-	if kind == "mcrash" {
+	if kind == "backup" {
+		kind = "kv"
+	} else if kind == "mergekv" {
+		// Merge running concurrently: key/value only
+		kind = "kv"
+	} else if kind == "mcrash" {
 		// mostly overwrites and deletes of few keys: segments that are mostly garbage
 		kind = []string{"kv", "kv", "kv", "kv", "kv", "kv", "set", "zset", "list"}[r.Intn(9)]
 	} else if kind == "mixed" || kind == "merge" || kind == "iso" || kind == "crash" {
